@@ -35,7 +35,7 @@ def opts(tier):
     o.long_run_p = 0.006
     o.short_last_p = 0.08
     o.equal_shapes_p = 0.2
-    return o
+    return gen.deepen(o, tier)
 
 
 def generate(rng, tier):
